@@ -1310,3 +1310,49 @@ package nbs
 //@     invariant possibleMatch >= 0 && uint32(possibleMatch) < ar.footer.chunkCount && uint32(possibleMatch) <= idx
 //@     invariant idx > uint32(possibleMatch) ==> verif_arPfx(ar.indexReader, idx-1) == prefix
 //@     invariant verif_arMatch(ar, hash) ==> int(idx) <= verif_ghost.tGJ
+
+// ---- generational batched reads (C01): each generation is asked about exactly what the previous ones did not find
+
+// HashSet.Copy: event marker (which set was copied into which)
+//@ extern (github.com/dolthub/dolt/go/store/hash.HashSet).Copy as verif_x_hashset_Copy
+//@   modifies nothing
+//@   ensures c != nil
+//@   ghost_set verif_ghost.gCopyPrev = verif_ghost.gCopyLast
+//@   ghost_set verif_ghost.gCopyLast = c
+//@   ghost_set verif_ghost.gCopySrc = hs
+
+// the per-generation batched reads call the callback for every chunk found and assign none of the caller's variables
+// (the callback removes addresses from a set the caller holds: a Go map, whose contents the engine does not model)
+//@ func (*NomsBlockStore).GetMany
+//@   property C01
+//@   trusted frame only: invokes |found| for the chunks it finds; the lookups below it are under their own contracts
+//@   modifies nothing
+//@ func (*NomsBlockStore).getManyCompressed
+//@   property C01
+//@   trusted frame only: invokes |found| for the chunks it finds; the lookups below it are under their own contracts
+//@   modifies nothing
+//@ func (GhostBlockStore).GetMany
+//@   property C01
+//@   trusted frame only
+//@   modifies nothing
+//@ func (GhostBlockStore).getManyCompressed
+//@   property C01
+//@   trusted frame only
+//@   modifies nothing
+
+// The sets are Go maps that the per-generation callbacks shrink as chunks are found; what is decided is which set each
+// generation is handed: the old generation the caller's set; the new generation the copy the old generation's
+// callback shrank (and the set the ghost generation will be asked about is a copy of exactly that); the ghost
+// generation the copy the new generation's callback shrank.
+//@ func (*GenerationalNBS).GetMany
+//@   property C01
+//@   requires gcs != nil && gcs.newGen != nil && gcs.oldGen != nil && gcs.newGen != gcs.oldGen && verif_ghost.gCopyLast == nil && verif_ghost.gCopyPrev == nil
+//@   at call (*NomsBlockStore).GetMany: assert (arg0:*NomsBlockStore == gcs.oldGen && verif_samemap(arg2:hash.HashSet, hashes) && verif_ghost.gCopyPrev == nil) || (arg0:*NomsBlockStore == gcs.newGen && verif_ghost.gCopyPrev != nil && verif_samemap(arg2:hash.HashSet, verif_ghost.gCopyPrev) && verif_samemap(verif_ghost.gCopySrc, verif_ghost.gCopyPrev))
+//@   at call (GhostBlockStore).GetMany: assert verif_ghost.gCopyPrev != nil && verif_samemap(arg2:hash.HashSet, verif_ghost.gCopyLast)
+//@   also_modifies verif_ghost.gCopyLast, verif_ghost.gCopyPrev, verif_ghost.gCopySrc
+//@ func (*GenerationalNBS).getManyCompressed
+//@   property C01
+//@   requires gcs != nil && gcs.newGen != nil && gcs.oldGen != nil && gcs.newGen != gcs.oldGen && verif_ghost.gCopyLast == nil && verif_ghost.gCopyPrev == nil
+//@   at call (*NomsBlockStore).getManyCompressed: assert (arg0:*NomsBlockStore == gcs.oldGen && verif_samemap(arg2:hash.HashSet, hashes) && verif_ghost.gCopyPrev == nil) || (arg0:*NomsBlockStore == gcs.newGen && verif_ghost.gCopyPrev != nil && verif_samemap(arg2:hash.HashSet, verif_ghost.gCopyPrev) && verif_samemap(verif_ghost.gCopySrc, verif_ghost.gCopyPrev))
+//@   at call (GhostBlockStore).getManyCompressed: assert verif_ghost.gCopyPrev != nil && verif_samemap(arg2:hash.HashSet, verif_ghost.gCopyLast)
+//@   also_modifies verif_ghost.gCopyLast, verif_ghost.gCopyPrev, verif_ghost.gCopySrc
